@@ -545,7 +545,8 @@ def run(ck):
     # ---- 1. design
     n = ck.pick(2, 3)
     ck.mc("IpcReply_MC", cfg_text=mc_cfg(n, 2, "design"), workers=4, timeout=ck.pick(120, 800), label=f"MC:IpcReply_MC design N={n}")
-    for variant, inv in (("rawmsg", "InvSync"), ("inverted", "InvTruthful"), ("silentfatal", "InvOneReply")):
+    guards = (("rawmsg", "InvSync"), ("inverted", "InvTruthful"), ("silentfatal", "InvOneReply"))
+    for variant, inv in guards[: ck.pick(1, 3)]:  # (quick: one JVM start less costs more than it tells)
         res = ck.mc("IpcReply_MC", cfg_text=mc_cfg(2, 2, variant, f"INVARIANT {inv}\n"), workers=2, timeout=300,
                     label=f"MC:IpcReply_MC broken variant {variant} (must violate {inv})", expect_ok=False)
         if res.violated != inv:
